@@ -12,10 +12,10 @@ Import ListNotations. Open Scope Z_scope.
 (* Dataset.iterate: the k-th draw (0-based) of a repeating linear iterator over n > 0 records is
    record k mod n — for every k, every record type, and it uses no randomness. *)
 Theorem C17_iterate_mod_n :
-  forall (R : Type) (data : list R) (orc : list Z) (k : nat),
+  forall (R : Type) (data : list R) (orc : list Z) (k : nat) (nm : option nat),
     data <> [] ->
     exists it l it',
-      new_iter R (mkDs data Linear true) orc = Ok (it, orc) /\
+      new_iter R (mkDs data Linear true nm) orc = Ok (it, orc) /\
       draw_seq R k it orc = Ok (l, it', orc) /\
       length l = k /\
       forall j, (j < k)%nat -> nth_error l j = nth_error data (j mod length data).
@@ -50,42 +50,93 @@ Theorem C17_shuffle_is_permutation :
 Proof. intros R l orc. split; [apply shuffle_total|apply shuffle_perm]. Qed.
 Print Assumptions C17_shuffle_is_permutation.
 
-(* Placement.  Follow one Dataset.iterate call site `sid` (repeat on, n > 0 records) through ANY
-   recipe of the modelled language — templates with count / for_each, any number of other call
-   sites, nested objects and friends to any depth, any number of iterations, any oracle — under two
-   conditions: the call site occurs once in the recipe text (occ_list <= 1: call sites are distinct
-   objects) and that occurrence has the arguments named in the theorem (plain_list).  The site may
-   lie inside or below for_each templates (before the repair of ForEachVariableDefinition.evaluate
-   that placement was refuted; see the regression examples at the end).
-   Then the records it hands out, read off the written rows in order (trace), are
+(* Which evaluations share an iterator (plugins.evaluate_memorable_function): the state key of a
+   call is its `name` together with the function called when the name is given, else the call
+   site.  Two calls have the same key exactly when both are named alike and call the same
+   function, or are the same unnamed call site. *)
+Theorem C17_memo_key_shared :
+  forall (R : Type) s1 (d1 : dsref R) s2 (d2 : dsref R),
+    key_of R s1 d1 = key_of R s2 d2 <->
+    match d_name R d1, d_name R d2 with
+    | Some n1, Some n2 => n1 = n2 /\ d_mode R d1 = d_mode R d2
+    | None, None => s1 = s2
+    | _, _ => False
+    end.
+Proof. exact key_of_shared. Qed.
+Print Assumptions C17_memo_key_shared.
+
+(* Placement.  Follow one state key `k0` — an unnamed Dataset.iterate call site, or all
+   Dataset.iterate calls that share a `name` — (repeat on, n > 0 records) through ANY recipe of the
+   modelled language: templates with count / for_each (named or not), any number of other call
+   sites and names, nested objects and friends to any depth, any number of iterations, any oracle —
+   under two conditions: every call under the key has the arguments named in the theorem
+   (plain_list), and no row draws under the key both in its own fields and in its nested objects
+   (nest_ok_list: there the order of writing is not the order of consuming; an unnamed call
+   site, occurring once, always satisfies it: C17_once_is_nest_ok).  The calls may lie inside or
+   below for_each templates (before the repair of ForEachVariableDefinition.evaluate that placement
+   was refuted; see the regression examples at the end), and for_each loops over the same name do
+   not disturb the sequence.
+   Then the records handed out under the key, read off the written rows in order (trace), are
    record 0, 1, .., n-1, 0, 1, ..: the j-th is record j mod n.  Holds for the rows written before an
    error as well (e is unconstrained). *)
 Theorem C17_placement_mod_n :
-  forall (R C : Type) (col : R -> nat -> option C) (sid : nat) (data : list R)
+  forall (R C : Type) (col : R -> nat -> option C) (k0 : key) (data : list R) (nm : option nat)
          (iters : nat) (ts : tmpls R) (orc : list Z) (rows : list (row R C)) (e : option err),
     data <> [] ->
-    (occ_list R sid ts <= 1)%nat ->
-    plain_list R sid (mkDs data Linear true) false ts ->
+    nest_ok_list R k0 ts ->
+    plain_list R k0 (mkDs data Linear true nm) false ts ->
     run_recipe R C col iters ts orc = (rows, e) ->
-    forall j, (j < length (trace R C sid rows))%nat ->
-      nth_error (trace R C sid rows) j = nth_error data (j mod length data).
+    forall j, (j < length (trace R C k0 rows))%nat ->
+      nth_error (trace R C k0 rows) j = nth_error data (j mod length data).
 Proof. exact placement_mod_n. Qed.
 Print Assumptions C17_placement_mod_n.
 
-(* Placement, repeat: False.  Under the same two conditions, a non-repeating Dataset.iterate call
-   site hands out, over the whole run (all rows, all iterations), at most n records, and they are
-   the file's records in file order: no record is ever used twice, wherever the consuming
-   template is placed.  (A run in which more than n rows consume it cannot end without error.) *)
+(* Placement, repeat: False.  Under the same two conditions, the non-repeating Dataset.iterate
+   state of a key hands out, over the whole run (all rows, all iterations, all sharing call sites),
+   at most n records, and they are the file's records in file order: no record is ever used twice,
+   wherever the consuming templates are placed.  (A run in which more than n rows consume it cannot
+   end without error.) *)
 Theorem C17_placement_no_reuse :
-  forall (R C : Type) (col : R -> nat -> option C) (sid : nat) (data : list R)
+  forall (R C : Type) (col : R -> nat -> option C) (k0 : key) (data : list R) (nm : option nat)
          (iters : nat) (ts : tmpls R) (orc : list Z) (rows : list (row R C)) (e : option err),
-    (occ_list R sid ts <= 1)%nat ->
-    plain_list R sid (mkDs data Linear false) false ts ->
+    nest_ok_list R k0 ts ->
+    plain_list R k0 (mkDs data Linear false nm) false ts ->
     run_recipe R C col iters ts orc = (rows, e) ->
-    trace R C sid rows = firstn (length (trace R C sid rows)) data /\
-    (length (trace R C sid rows) <= length data)%nat.
+    trace R C k0 rows = firstn (length (trace R C k0 rows)) data /\
+    (length (trace R C k0 rows) <= length data)%nat.
 Proof. exact placement_norepeat. Qed.
 Print Assumptions C17_placement_no_reuse.
+
+(* a key that occurs at most once in the recipe text (every unnamed call site) is well placed *)
+Theorem C17_once_is_nest_ok :
+  forall (R : Type) (k0 : key) (ts : tmpls R), (occ_list R k0 ts <= 1)%nat -> nest_ok_list R k0 ts.
+Proof. intros R k0. exact (proj2 (occ_le1_nest_ok R k0)). Qed.
+Print Assumptions C17_once_is_nest_ok.
+
+(* for_each and `name`: a for_each over a named dataset is the for_each over the same dataset
+   without the name — same rows, same state afterwards — at every evaluation (any iteration, any
+   parent row, whatever is remembered under that name, whatever the context flag).  With
+   C17_for_each_general: every evaluation writes one row per record, in order, and stops. *)
+Theorem C17_for_each_ignores_name :
+  forall (R C : Type) (col : R -> nat -> option C) tid (data : list R) m rp nm
+         (sites : list (nat * dsref R)) pass nested friends rc (s : st R C),
+    gen_rows R C col (Tmpl tid (LForEach (mkDs data m rp nm)) sites pass nested friends) rc s =
+    gen_rows R C col (Tmpl tid (LForEach (mkDs data m rp None)) sites pass nested friends) rc s.
+Proof. exact for_each_name_irrelevant. Qed.
+Print Assumptions C17_for_each_ignores_name.
+
+(* ... and such a loop (any part of a recipe without a field call under the key; for_each loops
+   over the same name are not field calls) leaves the iterator remembered under the key as it was:
+   a consumer elsewhere continues where it stood. *)
+Theorem C17_loops_leave_named_state :
+  forall (R C : Type) (col : R -> nat -> option C) (k0 : key) (t : tmpl R) rc (s : st R C),
+    occ R k0 t = O ->
+    match gen_rows R C col t rc s with
+    | ROk _ _ _ _ s' => lookup R k0 (s_sites R C s') = lookup R k0 (s_sites R C s)
+    | RErr _ _ _ _ _ => True
+    end.
+Proof. exact untouched_state. Qed.
+Print Assumptions C17_loops_leave_named_state.
 
 (* for_each: a template whose loop is for_each over dataset d writes exactly one row per record of
    one pass over d — in file order for iterate (no randomness used), a permutation for shuffle —
@@ -130,12 +181,12 @@ Theorem C17_for_each_general :
     | ROk _ _ _ _ s' =>
       exists it orc1 ex, new_iter R d (s_orc R C s) = Ok (it, orc1) /\
         s_out R C s' = s_out R C s ++ ex /\
-        map (key R C) (mine R C tid ex) = keys R (i_rest R it) 0
+        map (fe_key R C) (mine R C tid ex) = keys R (i_rest R it) 0
     | RErr _ _ _ _ o =>
       (exists e0, new_iter R d (s_orc R C s) = Err e0 /\ o = s_out R C s) \/
       (exists it orc1 ex, new_iter R d (s_orc R C s) = Ok (it, orc1) /\
         o = s_out R C s ++ ex /\
-        prefix (map (key R C) (mine R C tid ex)) (keys R (i_rest R it) 0))
+        prefix (map (fe_key R C) (mine R C tid ex)) (keys R (i_rest R it) 0))
     end.
 Proof. exact for_each_general. Qed.
 Print Assumptions C17_for_each_general.
@@ -199,70 +250,70 @@ Print Assumptions C17_empty_dataset_error.
    below the for_each template T2 received record 10 twice and `repeat: False` never raised.
    Now the call site keeps its iterator: 10, then 20, and a third request is an error. *)
 Definition below_for_each_witness : tmpls Z :=
-  TCons (Tmpl 2%nat (LForEach (mkDs [1; 2] Linear true)) [] [] TNil
-              (TCons (Tmpl 1%nat (LCount 1%nat) [(1%nat, mkDs [10; 20] Linear false)] [] TNil TNil) TNil))
+  TCons (Tmpl 2%nat (LForEach (mkDs [1; 2] Linear true None)) [] [] TNil
+              (TCons (Tmpl 1%nat (LCount 1%nat) [(1%nat, mkDs [10; 20] Linear false None)] [] TNil TNil) TNil))
         TNil.
 
 Example C17_ex_below_for_each_repaired :
   exists rows,
     run_recipe Z Z (fun _ _ => None) 1%nat below_for_each_witness [] = (rows, None) /\
     map (r_cons Z Z) (filter (fun r => Nat.eqb (r_tid r) 1%nat) rows)
-    = [[(1%nat, 10)]; [(1%nat, 20)]].
+    = [[(KSite 1%nat, 10)]; [(KSite 1%nat, 20)]].
 Proof. eexists. split; vm_compute; reflexivity. Qed.
 
 Example C17_ex_below_for_each_overrun :
   exists rows e,
     run_recipe Z Z (fun _ _ => None) 2%nat below_for_each_witness [] = (rows, Some (DGE e)) /\
     map (r_cons Z Z) (filter (fun r => Nat.eqb (r_tid r) 1%nat) rows)
-    = [[(1%nat, 10)]; [(1%nat, 20)]].
+    = [[(KSite 1%nat, 10)]; [(KSite 1%nat, 20)]].
 Proof. eexists. eexists. split; vm_compute; reflexivity. Qed.
 
 (* the witness satisfies the hypotheses of C17_placement_no_reuse: the theorem covers it *)
 Example C17_ex_below_for_each_hyps :
-  (occ_list Z 1%nat below_for_each_witness <= 1)%nat /\
-  plain_list Z 1%nat (mkDs [10; 20] Linear false) false below_for_each_witness.
+  nest_ok_list Z (KSite 1%nat) below_for_each_witness /\
+  plain_list Z (KSite 1%nat) (mkDs [10; 20] Linear false None) false below_for_each_witness.
 Proof. vm_compute. intuition (try discriminate; auto). Qed.
 
 (* ---- non-vacuity: concrete runs ---- *)
 Example C17_ex_iterate_wraps :
   run_recipe Z Z (fun _ _ => None) 2%nat
-    (TCons (Tmpl 1%nat (LCount 2%nat) [(1%nat, mkDs [10; 20; 30] Linear true)] [] TNil TNil) TNil) []
-  = ([mkRow 1%nat None 0 [(1%nat, 10)] []; mkRow 1%nat None 1 [(1%nat, 20)] [];
-      mkRow 1%nat None 0 [(1%nat, 30)] []; mkRow 1%nat None 1 [(1%nat, 10)] []], None).
+    (TCons (Tmpl 1%nat (LCount 2%nat) [(1%nat, mkDs [10; 20; 30] Linear true None)] [] TNil TNil) TNil) []
+  = ([mkRow 1%nat None 0 [(KSite 1%nat, 10)] []; mkRow 1%nat None 1 [(KSite 1%nat, 20)] [];
+      mkRow 1%nat None 0 [(KSite 1%nat, 30)] []; mkRow 1%nat None 1 [(KSite 1%nat, 10)] []], None).
 Proof. vm_compute. reflexivity. Qed.
 
 (* a recipe that satisfies the hypotheses of C17_placement_mod_n: the call site 1 sits in a nested
    object of a friend, next to another call site and a for_each template; 2 iterations *)
 Definition placement_witness : tmpls Z :=
-  TCons (Tmpl 3%nat (LCount 2%nat) [(7%nat, mkDs [5] Linear true)] []
+  TCons (Tmpl 3%nat (LCount 2%nat) [(7%nat, mkDs [5] Linear true None)] []
               TNil
               (TCons (Tmpl 2%nat LDefault [] []
-                           (TCons (Tmpl 1%nat (LCount 2%nat) [(1%nat, mkDs [10; 20; 30] Linear true)] [] TNil TNil) TNil)
+                           (TCons (Tmpl 1%nat (LCount 2%nat) [(1%nat, mkDs [10; 20; 30] Linear true None)] [] TNil TNil) TNil)
                            TNil) TNil))
-        (TCons (Tmpl 4%nat (LForEach (mkDs [8; 9] Linear true)) [] [] TNil TNil) TNil).
+        (TCons (Tmpl 4%nat (LForEach (mkDs [8; 9] Linear true None)) [] [] TNil TNil) TNil).
 
 Example C17_ex_placement_hyps :
-  (occ_list Z 1%nat placement_witness <= 1)%nat /\ plain_list Z 1%nat (mkDs [10; 20; 30] Linear true) false placement_witness.
+  nest_ok_list Z (KSite 1%nat) placement_witness /\ plain_list Z (KSite 1%nat) (mkDs [10; 20; 30] Linear true None) false placement_witness.
 Proof. vm_compute. intuition (try discriminate; auto). Qed.
 
 Example C17_ex_placement_trace :
-  trace Z Z 1%nat (fst (run_recipe Z Z (fun _ _ => None) 2%nat placement_witness []))
+  trace Z Z (KSite 1%nat) (fst (run_recipe Z Z (fun _ _ => None) 2%nat placement_witness []))
   = [10; 20; 30; 10; 20; 30; 10; 20].
 Proof. vm_compute. reflexivity. Qed.
 
 Example C17_ex_shuffle_two_cycles :
   run_recipe Z Z (fun _ _ => None) 1%nat
-    (TCons (Tmpl 1%nat (LCount 6%nat) [(1%nat, mkDs [10; 20; 30] Shuffled true)] [] TNil TNil) TNil)
+    (TCons (Tmpl 1%nat (LCount 6%nat) [(1%nat, mkDs [10; 20; 30] Shuffled true None)] [] TNil TNil) TNil)
     [0; 1; 2; 0]
-  = ([mkRow 1%nat None 0 [(1%nat, 30)] []; mkRow 1%nat None 1 [(1%nat, 20)] [];
-      mkRow 1%nat None 2 [(1%nat, 10)] []; mkRow 1%nat None 3 [(1%nat, 20)] [];
-      mkRow 1%nat None 4 [(1%nat, 10)] []; mkRow 1%nat None 5 [(1%nat, 30)] []], None).
+  = ([mkRow 1%nat None 0 [(KSite 1%nat, 30)] []; mkRow 1%nat None 1 [(KSite 1%nat, 20)] [];
+      mkRow 1%nat None 2 [(KSite 1%nat, 10)] []; mkRow 1%nat None 3 [(KSite 1%nat, 20)] [];
+      mkRow 1%nat None 4 [(KSite 1%nat, 10)] []; mkRow 1%nat None 5 [(KSite 1%nat, 30)] []], None).
 Proof. vm_compute. reflexivity. Qed.
 
 Example C17_ex_norepeat_overrun :
   run_recipe Z Z (fun _ _ => None) 1%nat
-    (TCons (Tmpl 1%nat (LCount 3%nat) [(1%nat, mkDs [10; 20] Linear false)] [] TNil TNil) TNil) []
-  = ([mkRow 1%nat None 0 [(1%nat, 10)] []; mkRow 1%nat None 1 [(1%nat, 20)] []],
+    (TCons (Tmpl 1%nat (LCount 3%nat) [(1%nat, mkDs [10; 20] Linear false None)] [] TNil TNil) TNil) []
+  = ([mkRow 1%nat None 0 [(KSite 1%nat, 10)] []; mkRow 1%nat None 1 [(KSite 1%nat, 20)] []],
      Some (DGE "Could not generate enough values to create rows")).
 Proof. vm_compute. reflexivity. Qed.
 
@@ -270,4 +321,112 @@ Example C17_ex_update :
   run_update (list Z) Z (fun r i => nth_error r i)
     (TCons (Tmpl 1%nat LDefault [] [] TNil TNil) TNil) [[7; 70]; [9; 90]] [1%nat] []
   = ([mkRow 1%nat (Some [7; 70]) 0 [] [70]; mkRow 1%nat (Some [9; 90]) 1 [] [90]], None).
+Proof. vm_compute. reflexivity. Qed.
+
+(* ---- named datasets: two call sites (a template and its friend) share `name: 7`, a for_each
+   template loops over the same name, 2 iterations.  The shared state hands out 10, 20, 30, 10, ..
+   across both sites in the order the rows are written; the for_each writes its 3 rows in every
+   iteration (this is the shape of a change that made the for_each use the remembered iterator:
+   4, 0, 0 rows instead of 4, 4, 4). *)
+Definition named_witness : tmpls Z :=
+  TCons (Tmpl 1%nat (LCount 2%nat) [(1%nat, mkDs [10; 20; 30] Linear true (Some 7%nat))] [] TNil
+              (TCons (Tmpl 2%nat LDefault [(2%nat, mkDs [10; 20; 30] Linear true (Some 7%nat))] [] TNil TNil) TNil))
+        (TCons (Tmpl 3%nat (LForEach (mkDs [10; 20; 30] Linear true (Some 7%nat))) [] [] TNil TNil) TNil).
+
+Example C17_ex_named_hyps :
+  nest_ok_list Z (KName Linear 7%nat) named_witness /\
+  plain_list Z (KName Linear 7%nat) (mkDs [10; 20; 30] Linear true (Some 7%nat)) false named_witness.
+Proof. vm_compute. intuition (try discriminate; auto). Qed.
+
+Example C17_ex_named_trace :
+  let rows := fst (run_recipe Z Z (fun _ _ => None) 2%nat named_witness []) in
+  trace Z Z (KName Linear 7%nat) rows = [10; 20; 30; 10; 20; 30; 10; 20] /\
+  map (fun r => (r_fe Z Z r, r_index Z Z r)) (filter (fun r => Nat.eqb (r_tid r) 3%nat) rows)
+  = [(Some 10, 0); (Some 20, 1); (Some 30, 2); (Some 10, 0); (Some 20, 1); (Some 30, 2)].
+Proof. vm_compute. split; reflexivity. Qed.
+
+(* iterate and shuffle under the same name are different states *)
+Example C17_ex_name_per_function :
+  key_of Z 1%nat (mkDs [10] Linear true (Some 7%nat)) <> key_of Z 2%nat (mkDs [10] Shuffled true (Some 7%nat)).
+Proof. vm_compute. discriminate. Qed.
+
+(* ---- the CSV record reader (csv.reader / csv.DictReader over the file as Snowfakery opens it;
+   model: eolize, csv_step, csv_run, dict_reader in theories/Datasets.v) ---- *)
+
+(* Reading back what was written.  For every list of rows — a row has any number of cells (none: a
+   blank line), a cell is any sequence of code points, written bare or between double quotes with
+   inner quotes doubled; a cell containing a comma, a quote, CR or LF, and an empty cell that is
+   alone in its row, must be quoted (row_ok / cells_ok); cells are not longer than
+   csv.field_size_limit() — with each row ended by LF or CRLF, an optional last row without
+   terminator, and an optional byte order mark: csv.reader returns exactly those rows. *)
+Theorem C17_csv_roundtrip :
+  forall (bom : bool) (rows : list wrow) (last : option (list wcell)),
+    forallb row_ok rows = true ->
+    match last with Some cs => cs <> [] /\ cells_ok cs = true | None => True end ->
+    bom_ok bom (write_rows rows ++ match last with Some cs => write_cells cs | None => [] end) = true ->
+    csv_rows (write_file bom rows last)
+    = Ok (map (fun r => row_texts (w_cells r)) rows ++
+          match last with Some cs => [row_texts cs] | None => [] end).
+Proof. exact csv_roundtrip. Qed.
+Print Assumptions C17_csv_roundtrip.
+
+(* ... and the records of the dataset: with a header row and no row longer than the header, the
+   records delivered are the non-blank rows after the header, in file order, every cell intact,
+   short rows filled up with None. *)
+Theorem C17_csv_records_roundtrip :
+  forall (bom : bool) (header : wrow) (rows : list wrow) (last : option (list wcell)),
+    forallb row_ok (header :: rows) = true ->
+    match last with Some cs => cs <> [] /\ cells_ok cs = true | None => True end ->
+    bom_ok bom (write_rows (header :: rows) ++ match last with Some cs => write_cells cs | None => [] end) = true ->
+    let body := map (fun r => row_texts (w_cells r)) rows ++
+                match last with Some cs => [row_texts cs] | None => [] end in
+    Forall (fun r => (length r <= length (w_cells header))%nat) body ->
+    csv_records (write_file bom (header :: rows) last)
+    = Ok (Some (row_texts (w_cells header)),
+          map (pad_row (length (w_cells header))) (filter (fun r => negb (is_blank r)) body)).
+Proof. exact csv_records_roundtrip. Qed.
+Print Assumptions C17_csv_records_roundtrip.
+
+(* non-vacuity: a file with a byte order mark, header a,b; a quoted cell with CR, CRLF, a comma and
+   a doubled quote inside; a blank line; a short row; a quoted empty cell alone; last row without
+   terminator *)
+Definition csv_witness_rows : list wrow :=
+  [mkWRow [mkCell [97] false; mkCell [98] true] true;
+   mkWRow [mkCell [120; 13; 121; 13; 10; 44; 34; 122] true; mkCell [] false] false;
+   mkWRow [] true;
+   mkWRow [mkCell [233] false] false;
+   mkWRow [mkCell [] true] true].
+Definition csv_witness_last : option (list wcell) := Some [mkCell [51] false; mkCell [65279] false].
+
+Example C17_ex_csv_hyps :
+  forallb row_ok csv_witness_rows = true /\
+  (match csv_witness_last with Some cs => cs <> [] /\ cells_ok cs = true | None => True end) /\
+  bom_ok true (write_rows csv_witness_rows ++ match csv_witness_last with Some cs => write_cells cs | None => [] end) = true.
+Proof. vm_compute. split; [reflexivity|]. split; [split; [discriminate|reflexivity]|reflexivity]. Qed.
+
+Example C17_ex_csv_text :
+  write_file true csv_witness_rows csv_witness_last
+  = [65279; 97; 44; 34; 98; 34; 13; 10;
+     34; 120; 13; 121; 13; 10; 44; 34; 34; 122; 34; 44; 10;
+     13; 10;
+     233; 10;
+     34; 34; 13; 10;
+     51; 44; 65279].
+Proof. vm_compute. reflexivity. Qed.
+
+Example C17_ex_csv_records :
+  csv_records (write_file true csv_witness_rows csv_witness_last)
+  = Ok (Some [[97]; [98]],
+        [[Some [120; 13; 121; 13; 10; 44; 34; 122]; Some []];
+         [Some [233]; None];
+         [Some []; None];
+         [Some [51]; Some [65279]]]).
+Proof. vm_compute. reflexivity. Qed.
+
+(* the reader outside what a writer produces: quotes inside a bare cell are kept, text after a
+   closing quote is appended, an unterminated quoted cell is returned at the end of the file, a lone
+   CR ends a line *)
+Example C17_ex_csv_lenient :
+  csv_rows [97; 34; 98; 44; 34; 99; 34; 100; 13; 120; 10; 34; 101; 102]
+  = Ok [[[97; 34; 98]; [99; 100]]; [[120]]; [[101; 102]]].
 Proof. vm_compute. reflexivity. Qed.
